@@ -61,11 +61,19 @@ package mautil
 //@   property C20
 //@   ensures len(result) == 0 ==> result == nil
 
+// Lists are compared as multisets: both are sorted by their bytes (in place) and then compared position by
+// position, every position, so that duplicates count.
 //@ func MultiaddrsEqual
 //@   property C20
 //@   loop 1: invariant 0 <= i
 //@   ensures len(ma1) != len(ma2) ==> !result
 //@   ensures len(ma1) == len(ma2) && len(ma1) == 0 ==> result
+//@   at call SortFunc#1: assert arg0 == ma1
+//@   at call SortFunc#2: assert arg0 == ma2
+//@   at call Equal#2: assert arg0 == ma1[i] && arg1 == ma2[i] && count("call:SortFunc") == 2
+//@   loop 1: exhaustive
+//@   loop 1: iteration ensures itercount("call:Equal") == 1
+//@   ensures-local len(ma1) == len(ma2) && len(ma1) >= 2 ==> count("call:SortFunc") == 2
 
 //@ func StringsToMultiaddrs
 //@   property C20
